@@ -283,6 +283,10 @@ def run(ck):
 
     # ---- R20.10 an object definition is recognised as one whatever letters its type name is written with --------------------------------------
     ck.rule('R20.10', '`Name { .. }` is an object exactly when Name starts with an upper-case letter, in any script')
+    ck.explanation += (' R20.10 the character predicate of Identifier::maybe_type_name (a path to a char method, a closure over char methods, or chars().next().map_or(false, ..)) is '
+                       'evaluated on upper- and lower-case letters of four scripts: upper case must start a type name (else an unknown type in that script is read as a grouped '
+                       'binding and damages its parent), lower case must not. R20.11 re-files the C12 R12.3 bounds and the C12 R12.8 count-at-least-one obligations: a grid '
+                       'index out of range is reported and a zero count cannot abort the preview.')
     type_name_predicate(ck, L, 'R20.10')
 
     # ---- R20.11 a fault in a grid position or count is reported and never stops the run (shared with C12) ---------------------------------------
